@@ -228,6 +228,8 @@ def special_texts():
             digits += str(k % 10)
             if p == '.' and not seen: digits += '.'; seen = True
         out.append((' '.join(words), digits))
+    # a worded minus in front of a digit run is two chunks of a poetic literal (only `-5` is a negative number)
+    out += [('without 5', '71'), ('minus 10', '52'), ('without 1 friend', '716'), ('minus 5 ice', '513'), ('Without 5', '71'), ('MINUS 10', '52')]
     return out
 
 
